@@ -56,7 +56,9 @@ Definition parse_obs_eqb (x y : parse_obs) : bool :=
    a descriptor, the number of fields fits the option set, and every one of the six
    (normalised) fields reads as a list of documented items: then the parser must return the
    six denoted sets (bit 63 = the field is unrestricted) if every item is valid (values in
-   range, ranges not inverted, steps positive), and an error otherwise. [None] = no opinion
+   range, ranges not inverted, steps positive), and an error otherwise. It also demands an
+   error - whatever the other fields look like - when some field contains an item the
+   documentation refuses by name ([refused_item]: unknown name, non-numeric value). [None] = no opinion
    (syntax outside the documented grammar, e.g. "*-5", "+5", an empty list item: there only
    the model is compared). *)
 Definition set_of (p : Z -> bool) : N :=
@@ -75,6 +77,41 @@ Definition doc_field (f : fspec) (s : list N) : option (option N) :=
       else Some None
   end.
 
+(* Items the documentation REFUSES by name: "non-numeric values" and "unknown names". An item
+   whose pieces (around '/' and '-') are all plain words (ASCII letters and digits, not empty)
+   is refused when a value piece is neither a number nor a name of the field ("Mayhem",
+   "janx", "1e1", a month name in the day-of-week field), or the step is not a number. Items
+   with other characters ("*-5", "+5", an empty piece, non-ASCII bytes) are left to
+   [read_item]: documented syntax or no opinion. *)
+Definition is_alnum (c : N) : bool :=
+  (is_digit c || ((65 <=? c) && (c <=? 90)) || ((97 <=? c) && (c <=? 122)))%N.
+Definition word (s : list N) : bool := nonempty s && forallb is_alnum s.
+Definition not_number (s : list N) : bool := negb (forallb is_digit s).
+Definition bad_value (f : fspec) (s : list N) : bool :=
+  not_number s &&
+  match spec_assoc (List.map lower1 s) (f_names f) with Some _ => false | None => true end.
+
+Definition refused_item (f : fspec) (e : list N) : bool :=
+  match split_on 47 e with
+  | [rg] =>
+      match split_on 45 rg with
+      | [a] => word a && bad_value f a
+      | [a; b] => word a && word b && (bad_value f a || bad_value f b)
+      | _ => false
+      end
+  | [rg; st] =>
+      word st &&
+      match split_on 45 rg with
+      | [a] => word a && (bad_value f a || not_number st)
+      | [a; b] => word a && word b && (bad_value f a || bad_value f b || not_number st)
+      | _ => false
+      end
+  | _ => false
+  end.
+
+Definition refused_field (f : fspec) (s : list N) : bool :=
+  existsb (refused_item f) (split_on 44 s).
+
 Definition parse_doc_out (opts : Z) (spec : list N) : option parse_obs :=
   if has_tz_prefix spec || prefixb (bs "@") spec || new_parser_panics opts then None
   else
@@ -83,6 +120,11 @@ Definition parse_doc_out (opts : Z) (spec : list N) : option parse_obs :=
     | _ =>
         match normalize_fields (go_fields spec) opts with
         | Ok [f0; f1; f2; f3; f4; f5] =>
+            if refused_field fs_second f0 || refused_field fs_minute f1 ||
+               refused_field fs_hour f2 || refused_field fs_dom f3 ||
+               refused_field fs_month f4 || refused_field fs_dow f5
+            then Some ObsErr
+            else
             match doc_field fs_second f0, doc_field fs_minute f1, doc_field fs_hour f2,
                   doc_field fs_dom f3, doc_field fs_month f4, doc_field fs_dow f5 with
             | Some a, Some b, Some c, Some d, Some e, Some f =>
